@@ -29,17 +29,23 @@ def _conc(v, lo, hi):
     raise AssertionError('out of range')
 
 
+PROBES = (-1, 0, 1, 2, 3, 99)
+
+
 def snap(env, f):
     o = obs_frame_full(env, f)
     o.append([len(f.columns), f._blocks.shape[1], len(f._blocks._dtypes)])
+    # label membership as the column index answers it (a derived index must not learn labels its source gained later)
+    o.append([lab in f.columns for lab in PROBES])
     return o
 
 
 def ref_frame(index, table):
     """table: list of (label, column cells) in column order (no dict: labels may be symbolic)"""
     n = len(table)
-    return ['F', list(index), [l for l, _ in table], [[table[c][1][r] for c in range(n)] for r in range(len(index))],
-            ['i'] * n, None, [n, n, n]]
+    held = [l for l, _ in table]
+    return ['F', list(index), held, [[table[c][1][r] for c in range(n)] for r in range(len(index))],
+            ['i'] * n, None, [n, n, n], [lab in held for lab in PROBES]]
 
 
 def coherent(env, f):
@@ -77,7 +83,9 @@ def mk_history(kinds, tier='quick', timeout=240):
         g = rt.untraced(lambda: sf.FrameGO.from_items(((0, env.array([100, 101], 'int64')), (1, env.array([200, 201], 'int64'))), index=index))
         static_src = rt.untraced(lambda: sf.Frame.from_items(((0, env.array([100, 101], 'int64')), (1, env.array([200, 201], 'int64'))), index=index))
         g2 = static_src.to_frame_go()      # static -> grow-only: growth of g2 must never show through static_src
-        derived = [('to_frame', g.to_frame()), ('to_frame_go', g.to_frame_go()), ('selection', g[[1, 0]]), ('ctor', sf.Frame(g))]
+        derived = [('to_frame', g.to_frame()), ('to_frame_go', g.to_frame_go()), ('selection', g[[1, 0]]), ('ctor', sf.Frame(g)),
+                   ('set_index', g.set_index(0)), ('set_index_drop', g.set_index(0, drop=True)), ('relabel', g.relabel(index=(7, 8))),
+                   ('rename', g.rename('other')), ('deepcopy', __import__('copy').deepcopy(g))]
         dsnaps = [snap(env, d) for _, d in derived]
         ssnap = snap(env, static_src)
         trace, exp = [], []
@@ -140,6 +148,13 @@ def mk_history(kinds, tier='quick', timeout=240):
         g2[99] = 1
         trace.append(snap(env, static_src))
         exp.append(ssnap)
+        # ... and growth of every grow-only container DERIVED from g never shows through g or its other derivations
+        gsnap = snap(env, g)
+        for name, d in derived:
+            if isinstance(d, sf.FrameGO):
+                d[99] = 1
+        trace.append([snap(env, g), [snap(env, d) for _, d in derived if not isinstance(d, sf.FrameGO)]])
+        exp.append([gsnap, [sn for (_, d), sn in zip(derived, dsnaps) if not isinstance(d, sf.FrameGO)]])
         return trace, exp
     params = []
     for si, kind in enumerate(kinds):
@@ -181,8 +196,8 @@ def body_indexgo_extend(env, a, b, read):
     ref_accept = a not in (10, 20) and b not in (10, 20) and a != b
     labels = [10, 20] + ([a, b] if ref_accept else [])
     got = [accepted, env.obs(list(idx)), len(idx), env.obs(idx.values.tolist()), [env.obs(idx.loc_to_iloc(l)) for l in labels],
-           env.obs(list(static))]
-    exp = [ref_accept, labels, len(labels), labels, list(range(len(labels))), [10, 20]]
+           env.obs(list(static)), [bool(x in static) for x in (a, b)], len(static), env.obs(static.values.tolist())]
+    exp = [ref_accept, labels, len(labels), labels, list(range(len(labels))), [10, 20], [a in (10, 20), b in (10, 20)], 2, [10, 20]]
     return got, exp
 
 
@@ -192,26 +207,78 @@ _add(Cond('indexgo_extend_all_or_nothing', [('a', 'int'), ('b', 'int'), ('read',
         route='IndexGO.extend: either both labels are appended or the index is exactly as before; a static Index made from it is unaffected'))
 
 
-def body_ihgo_extend(env, a, b):
+def body_ihgo_extend(env, a, b, read):
+    from vf import rt
+    a, b, read = _conc(a, 9, 11), _conc(b, 9, 11), bool(read)
+
+    def run():
+        sf = env.sf
+        tuples = [(1, 10), (1, 11), (2, 10)]
+        g = sf.IndexHierarchyGO.from_labels(list(tuples))
+        static = sf.IndexHierarchy(g)
+        if read:
+            _ = g.values      # materialise the label cache before the growth
+        other = sf.IndexHierarchy.from_labels([(3, a), (3, b)])
+        try:
+            g.extend(other)
+            accepted = True
+        except grow_errors():
+            accepted = False
+        # conversions taken right after the growth, with no read of g in between (a stale cache must not be handed over)
+        after_static = sf.IndexHierarchy(g)
+        after_renamed = g.rename('r')
+        labels = tuples + [(3, a), (3, b)]
+        got = [accepted,
+               env.obs([tuple(t) for t in after_static]), len(after_static), env.obs([tuple(r) for r in after_static.values.tolist()]),
+               env.obs([tuple(t) for t in after_renamed]), len(after_renamed),
+               env.obs([tuple(t) for t in g]), len(g), env.obs([tuple(r) for r in g.values.tolist()]),
+               env.obs([tuple(t) for t in static]), len(static)]
+        full = [list(t) for t in labels]
+        exp = [True, full, 5, full, full, 5, full, 5, full, [list(t) for t in tuples], 3]
+        return got, exp
+    return rt.untraced(run)
+
+
+_add(Cond('indexhierarchygo_extend', [('a', 'int'), ('b', 'int'), ('read', 'bool')], body_ihgo_extend, ranges={'a': (9, 11), 'b': (9, 11)}, pre=['a != b'],
+        functions=['IndexHierarchyGO.extend'],
+        bounds='IndexHierarchyGO of 3 leaves extended with 2 leaves under a new outer label, inner labels symbolic in 9..11; symbolic choice of materialising the label cache before the growth',
+        route='IndexHierarchyGO.extend: new leaves follow in order; a static copy taken before is unaffected; IndexHierarchy(g) / g.rename() taken right after hold all labels', timeout=240))
+
+
+def body_framego_hier_columns(env, a, read, how):
+    """FrameGO with hierarchical (IndexHierarchyGO) columns: growth, then conversion to a static Frame."""
     sf = env.sf
     from vf import rt
-    tuples = [(1, 10), (1, 11), (2, 10)]
-    g = rt.untraced(lambda: sf.IndexHierarchyGO.from_labels(list(tuples)))
-    static = sf.IndexHierarchy(g)
-    other = sf.IndexHierarchy.from_labels([(3, a), (3, b)])
-    try:
-        g.extend(other)
-        accepted = True
-    except grow_errors():
-        accepted = False
-    labels = tuples + [(3, a), (3, b)]
-    got = [accepted, env.obs([tuple(t) for t in g]), len(g), env.obs([tuple(r) for r in g.values.tolist()]),
-           env.obs([tuple(t) for t in static]), len(static)]
-    exp = [True, [list(t) for t in labels], 5, [list(t) for t in labels], [list(t) for t in tuples], 3]
-    return got, exp
+    a = _conc(a, 9, 11)
+    read, how = bool(read), _conc(how, 0, 2)
+
+    def run():
+        cols = sf.IndexHierarchyGO.from_labels([(1, 10), (1, 11)])
+        g = sf.FrameGO(env.array([[1, 2], [3, 4]], 'int64'), index=(100, 101), columns=cols)
+        if read:
+            _ = g.columns.values
+        try:
+            g[(2, a)] = env.array([5, 6], 'int64')
+            accepted = True
+        except grow_errors():
+            accepted = False
+        if how == 0:
+            st = g.to_frame()
+        elif how == 1:
+            st = sf.Frame(g)
+        else:
+            st = g.to_frame_go()
+        labels = [[1, 10], [1, 11], [2, a]]
+        rows = [[1, 2, 5], [3, 4, 6]]
+        got = [accepted, env.obs([list(t) for t in st.columns]), list(st.shape), env.obs(st.values.tolist()), env.obs(st.columns.values.tolist()),
+               env.obs([list(t) for t in g.columns]), list(g.shape), env.obs(g.values.tolist())]
+        exp = [True, labels, [2, 3], rows, labels, labels, [2, 3], rows]
+        return got, exp
+    return rt.untraced(run)
 
 
-_add(Cond('indexhierarchygo_extend', [('a', 'int'), ('b', 'int')], body_ihgo_extend, ranges={'a': (9, 11), 'b': (9, 11)}, pre=['a != b'],
-        functions=['IndexHierarchyGO.extend'],
-        bounds='IndexHierarchyGO of 3 leaves extended with 2 leaves under a new outer label, inner labels symbolic in 9..11',
-        route='IndexHierarchyGO.extend: new leaves follow in order; a static copy taken before is unaffected', timeout=240))
+_add(Cond('framego_hierarchical_columns_grow_then_convert', [('a', 'int'), ('read', 'bool'), ('how', 'int')], body_framego_hier_columns,
+        ranges={'a': (9, 11), 'how': (0, 2)},
+        functions=['FrameGO.__setitem__', 'IndexHierarchyGO.append'],
+        bounds='FrameGO 2x2 with IndexHierarchyGO columns; one new column under a new outer label (inner label symbolic in 9..11); symbolic choice of reading the columns (cache materialised) before the growth and of the conversion (to_frame / Frame(g) / to_frame_go)',
+        route='FrameGO[(outer, inner)] = column, then conversion: the converted frame has every label and the data in step', timeout=240))
